@@ -32,6 +32,13 @@ CLAIMED["C16"] = dict(
     note="Trusted: as C14, plus the vendored PromQL engine (real code) over a hand-written storage.Queryable and a hand-written HTTP/JSON API layer (stub). Expression shapes with fallbacks (or / unless / absent) and ALERTS selectors are excluded from clause (b) as documented by pint. Round gaps are a harness bound (>= 15 min), not a copy of pint's cache constants.",
 )
 
+CLAIMED["C11"] = dict(
+    design="5.3",
+    technique="deterministic simulation: the whole `pint lint` command runs in process inside a bubble; a seeded parking scheduler decides every scan-worker / promapi-worker / server interleaving for --workers 2..64; console, JSON and exit status compared byte-for-byte with the --workers 1 FIFO run; same-tape triple execution for map-order effects; auxiliary uncontrolled -race runs for the data-race clause",
+    text="Generated multi-file rule sets (several problems per rule, identical problems across files, check kinds instantiated several times, 0-2 simulated Prometheus servers answered by the real PromQL engine) are linted once with one worker and FIFO order and then under a seeded schedule with N workers; every observable (stderr, --json file, returned error) must be identical, three times over for the same tape. The data-race clause cannot be decided under a serialising scheduler, so the same workloads also run free (real clock, GOMAXPROCS 1/4/16) in a -race build: that part is observation and labelled so in the evidence.",
+    note="Trusted: as C14. Each in-process run starts from emptied sync.Pools with GC off, so that parser-pool history of earlier runs in the same test process cannot leak into a later run (DESIGN 'Observations'). Data-race reports are sound but not replayable from a seed.",
+)
+
 NA = {
     "C01": "pure function of the file bytes (agreement of two acceptors): no schedule, clock, fault or peer for a simulator to own; deciding it is differential input generation, which this task's technique family excludes",
     "C02": "totality of a pure function of (bytes, parser mode): nothing time-, schedule- or fault-dependent in the anchored code",
